@@ -36,6 +36,7 @@ fixed(['C15'], '7ed6134', 'resetSettings() did not reset the random seed')
 fixed(['C15', 'C13'], '8678150', 'settings parsers stepped over the terminating NUL of a line ending after the type or the name')
 fixed(['C15', 'C13'], '309920a', 'std::stoi/stod/stoul exceptions escaped from loadSettingsFile()/parseSettingsString()')
 fixed(['C15', 'C13'], 'deb3b05', 'std::stod exception escaped from parseSettingsString() for real parameters')
+fixed(['C15'], 'e28a1fa', 'subnormal real parameter values written by saveSettingsFile() could not be loaded back (std::stod throws on underflow)')
 fixed(['C15'], '1d863e0', 'settings parsers accepted any non-numeric text as the boolean value false')
 fixed(['C15'], 'e1b81b2', 'settings parsers accepted any uint parameter name starting with random_seed')
 fixed(['C15'], '9c5c7ca', 'setSettings() stored the new settings before calling the setters: with init=false nothing was applied, and only-real -> auto sync mode segfaulted')
